@@ -896,6 +896,39 @@ pub enum BindError {
     },
 }
 
+/// Accessors for the verification harness (property C19).
+#[cfg(iroh_verif)]
+impl EndpointInner {
+    pub(crate) fn verif_sock(&self) -> Arc<Socket> {
+        self.sock.clone()
+    }
+}
+
+#[cfg(iroh_verif)]
+impl Socket {
+    /// The synthetic address QUIC uses for `endpoint_id` reached through relay `url` (registered on demand).
+    pub(crate) fn verif_relay_mapped_addr(&self, url: RelayUrl, endpoint_id: EndpointId) -> SocketAddr {
+        use crate::socket::mapped_addrs::MappedAddr;
+        self.mapped_addrs
+            .relay_addrs
+            .get(&(url, endpoint_id))
+            .private_socket_addr()
+    }
+    /// The synthetic address QUIC uses for a custom transport address (registered on demand).
+    pub(crate) fn verif_custom_mapped_addr(&self, addr: iroh_base::CustomAddr) -> SocketAddr {
+        use crate::socket::mapped_addrs::MappedAddr;
+        self.mapped_addrs.custom_addrs.get(&addr).private_socket_addr()
+    }
+    /// The per-endpoint synthetic address of `endpoint_id` (registered on demand, no state started).
+    pub(crate) fn verif_endpoint_mapped_addr(&self, endpoint_id: EndpointId) -> SocketAddr {
+        use crate::socket::mapped_addrs::MappedAddr;
+        self.mapped_addrs
+            .endpoint_addrs
+            .get(&endpoint_id)
+            .private_socket_addr()
+    }
+}
+
 impl EndpointInner {
     /// Creates a [`EndpointInner`].
     pub(crate) async fn bind(opts: Options) -> Result<Self, BindError> {
